@@ -84,7 +84,7 @@ Proof.
     destruct (negb _); [discriminate|].
     destruct (_ && _); [discriminate|].
     destruct (negb _); [discriminate|].
-    destruct (if is_reclaim k then _ else _) as [[[s1 done] fits] v1].
+    destruct (do_evictions eps E k s p pq a n _) as [[[s1 done] fits] v1].
     destruct (negb _); [discriminate|].
     destruct fits; [|discriminate].
     destruct (stmt_pipeline _ _ _ _ _) as [s2 r]. destruct r; try discriminate.
